@@ -59,8 +59,8 @@ def skip_model(p):
     dt = p["dtype"]
     ishape = p.get("input_shape", [B, S, D])
     sshape = p.get("skip_shape", [B, S, D])
-    x = g.inp("input", dt, ishape)
-    sk = g.inp("skip", dt, sshape)
+    x = g.inp("input", dt, p.get("decl_input_shape", ishape), ishape)      # decl_*: declared (possibly symbolic) shape, fed with the concrete one
+    sk = g.inp("skip", dt, p.get("decl_skip_shape", sshape), sshape)
     gamma = g.inp("gamma", dt, p.get("gamma_shape", [D]))
     beta = g.inp("beta", dt, [D]) if p["kind"] == "ln" else None
     bias = g.inp("bias", dt, p.get("bias_shape", [D])) if p["bias"] else None
@@ -81,7 +81,7 @@ def skip_model(p):
         y = g.op("SimplifiedLayerNormalization", [ssum, gamma], **attrs)
     else:
         y = g.op("LayerNormalization", [ssum, gamma, beta], **attrs)
-    oshape = p.get("out_shape", [B, S, D])
+    oshape = p.get("decl_out_shape", p.get("out_shape", [B, S, D]))
     g.op("Identity", [y], out="y")
     g.out("y", dt, oshape)
     if p.get("use_sum", True):
